@@ -1,6 +1,846 @@
-//! C06 — not built yet (stub; replaced by the real check).
+//! C06 — addresses round-trip through text, are canonical, and name exactly one network.
+use std::str::FromStr;
+
+use elements::address::Payload;
+use elements::bitcoin::bech32::Fe32;
+use elements::hashes::Hash as _;
+use elements::schnorr::TweakedPublicKey;
+use elements::secp256k1_zkp::{PublicKey, Scalar, SecretKey, XOnlyPublicKey};
+use elements::taproot::TapNodeHash;
+use elements::{Address, AddressParams, PubkeyHash, Script, ScriptHash};
+use serde_json::json;
+
 use crate::engine::*;
+use crate::gen::{self, pool, secp};
+use crate::refimpl::addr::{self as ra, RefAddr, RefPayload, NETS};
+use crate::refimpl::sha256::{sha256, tagged};
+use crate::{ensure, ensure_eq};
+
+pub const KF_BLINDED_SHORT: &str = "blinded-segwit-address-accepts-program-shorter-than-2";
+
+/// the library's parameter sets, in the order of `refimpl::addr::NETS`
+pub fn lib_params(i: usize) -> &'static AddressParams {
+    match i {
+        0 => &AddressParams::LIQUID,
+        1 => &AddressParams::ELEMENTS,
+        _ => &AddressParams::LIQUID_TESTNET,
+    }
+}
+
+fn harness_bug(msg: String) -> Failure {
+    Failure::panic(format!("harness inconsistency: {}", msg), "src/props/c06.rs".into())
+}
+
+/// fill the library's public fields from the reference description
+pub fn to_lib(a: &RefAddr) -> Result<Address, Failure> {
+    let payload = match &a.payload {
+        RefPayload::Pkh(h) => Payload::PubkeyHash(<PubkeyHash as elements::bitcoin::hashes::Hash>::from_byte_array(*h)),
+        RefPayload::Sh(h) => Payload::ScriptHash(ScriptHash::from_byte_array(*h)),
+        RefPayload::Wit { version, program } => Payload::WitnessProgram {
+            version: Fe32::try_from(*version).map_err(|_| harness_bug(format!("witness version {}", version)))?,
+            program: program.clone(),
+        },
+    };
+    let blinding_pubkey = match &a.blinder {
+        None => None,
+        Some(b) => Some(PublicKey::from_slice(b).map_err(|_| harness_bug("generated blinder is not a key".into()))?),
+    };
+    Ok(Address { params: lib_params(a.net), payload, blinding_pubkey })
+}
+
+/// read the library's public fields back into the reference description
+pub fn from_lib(a: &Address) -> Result<RefAddr, Failure> {
+    let net = (0..3).find(|&i| {
+        let p = lib_params(i);
+        p.p2pkh_prefix == a.params.p2pkh_prefix
+            && p.p2sh_prefix == a.params.p2sh_prefix
+            && p.blinded_prefix == a.params.blinded_prefix
+            && p.bech_hrp == a.params.bech_hrp
+            && p.blech_hrp == a.params.blech_hrp
+    });
+    let Some(net) = net else {
+        return Err(Failure::new(format!("address carries parameters of no built-in network: {:?}", a.params)));
+    };
+    let payload = match &a.payload {
+        Payload::PubkeyHash(h) => RefPayload::Pkh(<PubkeyHash as elements::bitcoin::hashes::Hash>::to_byte_array(*h)),
+        Payload::ScriptHash(h) => RefPayload::Sh(h.to_byte_array()),
+        Payload::WitnessProgram { version, program } => {
+            RefPayload::Wit { version: version.to_u8(), program: program.clone() }
+        }
+    };
+    Ok(RefAddr { net, payload, blinder: a.blinding_pubkey.map(|k| k.serialize().to_vec()) })
+}
+
+fn describe(a: &RefAddr) -> String {
+    let p = match &a.payload {
+        RefPayload::Pkh(h) => format!("p2pkh({})", hex(h)),
+        RefPayload::Sh(h) => format!("p2sh({})", hex(h)),
+        RefPayload::Wit { version, program } => format!("witness(v{}, {} bytes: {})", version, program.len(), hex(program)),
+    };
+    format!("{} {} blinder={}", NETS[a.net].name, p, a.blinder.as_ref().map_or("none".to_string(), |b| hex(b)))
+}
+
+fn class_of(a: &RefAddr) -> String {
+    let p = match &a.payload {
+        RefPayload::Pkh(_) => "p2pkh".to_string(),
+        RefPayload::Sh(_) => "p2sh".to_string(),
+        RefPayload::Wit { version: 0, program } => format!("v0/{}", program.len()),
+        RefPayload::Wit { version: 1, program } if program.len() == 32 => "v1/32".to_string(),
+        RefPayload::Wit { program, .. } => format!(
+            "v1+/{}",
+            match program.len() {
+                2 => "2",
+                40 => "40",
+                20 | 32 => "20|32",
+                _ => "other",
+            }
+        ),
+    };
+    format!("{}{}", p, if a.blinder.is_some() { "/blinded" } else { "" })
+}
+
+fn nontrivial_addr(a: &RefAddr) -> bool {
+    a.blinder.is_some() || matches!(a.payload, RefPayload::Wit { version, .. } if version >= 1)
+}
+
+fn lib_from_str(s: &str) -> Result<Result<Address, String>, Failure> {
+    guard::guard("Address::from_str", s.len(), || Address::from_str(s).map_err(|e| e.to_string()))
+}
+fn lib_parse_with(s: &str, net: usize) -> Result<Result<Address, String>, Failure> {
+    guard::guard("Address::parse_with_params", s.len(), || {
+        Address::parse_with_params(s, lib_params(net)).map_err(|e| e.to_string())
+    })
+}
+fn lib_display(a: &Address) -> Result<String, Failure> {
+    guard::guard("Address::to_string", 0, || a.to_string())
+}
+
+// ------------------------------------------------------------------ generators
+
+fn gen_blinder(t: &mut Tape) -> Option<Vec<u8>> {
+    let p = pool();
+    match t.below(4) {
+        0 => None,
+        1 => Some(p.pubkeys[t.below(p.pubkeys.len())].serialize().to_vec()),
+        2 => {
+            // key derived from a tape scalar
+            let k = match SecretKey::from_slice(&t.arr32()) {
+                Ok(sk) => PublicKey::from_secret_key(secp(), &sk),
+                Err(_) => p.pubkeys[0],
+            };
+            Some(k.serialize().to_vec())
+        }
+        _ => {
+            // key from a tape x coordinate and parity (about half of all x are on the curve)
+            let mut b = vec![if t.bool() { 3u8 } else { 2 }];
+            b.extend_from_slice(&t.arr32());
+            match PublicKey::from_slice(&b) {
+                Ok(k) => Some(k.serialize().to_vec()),
+                Err(_) => Some(p.pubkeys[1].serialize().to_vec()),
+            }
+        }
+    }
+}
+
+fn gen_hash20(t: &mut Tape) -> [u8; 20] {
+    match t.below(8) {
+        0 => [0u8; 20],
+        1 => [0xff; 20],
+        _ => t.arr20(),
+    }
+}
+
+fn gen_program(t: &mut Tape, n: usize) -> Vec<u8> {
+    match t.below(8) {
+        0 => vec![0u8; n],
+        1 => vec![0xff; n],
+        _ => t.bytes(n),
+    }
+}
+
+fn gen_v1plus_len(t: &mut Tape) -> usize {
+    match t.below(10) {
+        0 => 32,
+        1 => 2,
+        2 => 20,
+        3 => 33,
+        4 => 40,
+        5 => 3,
+        6 => 39,
+        _ => t.range(2, 40),
+    }
+}
+
+/// every address of the property's domain
+pub fn gen_ref_addr(t: &mut Tape) -> RefAddr {
+    let net = t.below(3);
+    let payload = match t.below(10) {
+        0 => RefPayload::Pkh(gen_hash20(t)),
+        1 => RefPayload::Sh(gen_hash20(t)),
+        2 => RefPayload::Wit { version: 0, program: gen_program(t, 20) },
+        3 => RefPayload::Wit { version: 0, program: gen_program(t, 32) },
+        4 => RefPayload::Wit { version: 1, program: gen_program(t, 32) },
+        _ => {
+            let version = t.range(1, 16) as u8;
+            let n = gen_v1plus_len(t);
+            RefPayload::Wit { version, program: gen_program(t, n) }
+        }
+    };
+    let blinder = gen_blinder(t);
+    RefAddr { net, payload, blinder }
+}
+
+/// a segwit address only
+pub fn gen_ref_segwit(t: &mut Tape) -> RefAddr {
+    let mut a = gen_ref_addr(t);
+    if !a.is_segwit() {
+        let n = if t.bool() { 32 } else { 20 };
+        a.payload = RefPayload::Wit { version: 0, program: gen_program(t, n) };
+    }
+    a
+}
+
+// ------------------------------------------------------------------ oracle for valid addresses
+
+/// payload invariant of the statement for any successfully parsed address, plus the checksum
+/// variant of the string it was parsed from
+fn check_invariant(s: &str, got: &RefAddr) -> R {
+    if let RefPayload::Wit { version, program } = &got.payload {
+        ensure!(*version <= 16, "{:?} parsed with witness version {}", s, version);
+        ensure!(
+            (2..=40).contains(&program.len()),
+            "{:?} parsed with a witness program of {} bytes ({})",
+            s,
+            program.len(),
+            describe(got)
+        );
+        if *version == 0 {
+            ensure!(
+                program.len() == 20 || program.len() == 32,
+                "{:?} parsed as version 0 with a {}-byte program",
+                s,
+                program.len()
+            );
+        }
+        let Some((hrp, data)) = ra::split_hrp(s) else {
+            return Err(Failure::new(format!("{:?} parsed as segwit address but has no separator", s)));
+        };
+        let vals: Option<Vec<u8>> = data.bytes().map(ra::charset_rev).collect();
+        let Some(vals) = vals else {
+            return Err(Failure::new(format!("{:?} parsed as segwit address with characters outside the alphabet", s)));
+        };
+        let mut all = ra::hrp_expand(hrp);
+        all.extend_from_slice(&vals);
+        let ok = if got.blinder.is_some() {
+            ra::blech32_polymod(&all) == if *version == 0 { ra::BLECH32_CONST } else { ra::BLECH32M_CONST }
+        } else {
+            ra::bech32_polymod(&all) == if *version == 0 { ra::BECH32_CONST } else { ra::BECH32M_CONST }
+        };
+        ensure!(ok, "{:?} parsed as version {} although its checksum is not of the variant required for that version", s, version);
+    }
+    Ok(())
+}
+
+/// `s` is a valid text form of `want`: every parser agrees, exactly one network accepts it,
+/// display gives `canonical`
+fn check_parses_as(s: &str, want: &RefAddr, canonical: &str, ctx: &mut Ctx) -> R {
+    let parsed = lib_from_str(s)?;
+    ctx.eval();
+    let a = match parsed {
+        Ok(a) => a,
+        Err(e) => return Err(Failure::new(format!("from_str rejects {:?} ({}): {}", s, describe(want), e))),
+    };
+    let got = from_lib(&a)?;
+    ensure!(got == *want, "from_str({:?}) = {} but the string encodes {}", s, describe(&got), describe(want));
+    check_invariant(s, &got)?;
+    let shown = lib_display(&a)?;
+    ensure_eq!(shown.as_str(), canonical, "display of the address parsed from {:?} is not the canonical form", s);
+    for net in 0..3 {
+        let r = lib_parse_with(s, net)?;
+        ctx.eval();
+        match r {
+            Ok(b) => {
+                ensure!(
+                    net == want.net,
+                    "{:?} is an address of {} but also parses under the {} parameters as {}",
+                    s,
+                    NETS[want.net].name,
+                    NETS[net].name,
+                    describe(&from_lib(&b)?)
+                );
+                let gb = from_lib(&b)?;
+                ensure!(gb == *want, "parse_with_params({:?}, {}) = {} instead of {}", s, NETS[net].name, describe(&gb), describe(want));
+            }
+            Err(e) => {
+                ensure!(net != want.net, "parse_with_params rejects {:?} under its own network {}: {}", s, NETS[net].name, e);
+            }
+        }
+    }
+    Ok(())
+}
+
+/// the complete oracle for one valid address given as reference description and library value
+fn check_valid(want: &RefAddr, lib: &Address, ctx: &mut Ctx) -> R {
+    let refs = want.encode();
+    let shown = lib_display(lib)?;
+    ctx.eval();
+    ensure_eq!(shown, refs, "display of {} differs from the reference encoder", describe(want));
+    check_parses_as(&refs, want, &refs, ctx)?;
+    if want.is_segwit() {
+        let upper = refs.to_ascii_uppercase();
+        check_parses_as(&upper, want, &refs, ctx)?;
+    }
+    let spk = guard::guard("Address::script_pubkey", 0, || lib.script_pubkey().to_bytes())?;
+    ensure_eq!(hex(&spk), hex(&want.script()), "script_pubkey of {}", describe(want));
+    ctx.class(&format!("valid:{}:{}", NETS[want.net].name, class_of(want)));
+    if nontrivial_addr(want) {
+        ctx.nontrivial(want);
+    }
+    Ok(())
+}
+
+fn roundtrip(t: &mut Tape, ctx: &mut Ctx) -> R {
+    let want = gen_ref_addr(t);
+    let lib = to_lib(&want)?;
+    if ctx.wants_sample(&class_of(&want)) {
+        ctx.sample(&class_of(&want), || json!({"address": describe(&want), "text": want.encode()}));
+    }
+    check_valid(&want, &lib, ctx)
+}
+
+// ------------------------------------------------------------------ constructors
+
+fn constructors(t: &mut Tape, ctx: &mut Ctx) -> R {
+    let p = pool();
+    let net = t.below(3);
+    let params = lib_params(net);
+    let blinder = gen_blinder(t);
+    let lib_blinder = match &blinder {
+        None => None,
+        Some(b) => Some(PublicKey::from_slice(b).map_err(|_| harness_bug("blinder".into()))?),
+    };
+    let inner = match t.below(3) {
+        0 => p.pubkeys[t.below(p.pubkeys.len())],
+        _ => match SecretKey::from_slice(&t.arr32()) {
+            Ok(sk) => PublicKey::from_secret_key(secp(), &sk),
+            Err(_) => p.pubkeys[2],
+        },
+    };
+    let script: Script = gen::gen_script(t, false);
+    let sb = script.to_bytes();
+    let which = t.below(8);
+    let (name, lib, payload): (&str, Address, RefPayload) = match which {
+        0 => {
+            let compressed = !t.chance(96);
+            let pk = elements::bitcoin::PublicKey { compressed, inner };
+            let ser = if compressed { inner.serialize().to_vec() } else { inner.serialize_uncompressed().to_vec() };
+            let a = guard::guard("Address::p2pkh", 0, || Address::p2pkh(&pk, lib_blinder, params))?;
+            (if compressed { "p2pkh" } else { "p2pkh-uncompressed" }, a, RefPayload::Pkh(ra::hash160(&ser)))
+        }
+        1 => {
+            let a = guard::guard("Address::p2sh", sb.len(), || Address::p2sh(&script, lib_blinder, params))?;
+            ("p2sh", a, RefPayload::Sh(ra::hash160(&sb)))
+        }
+        2 => {
+            let pk = elements::bitcoin::PublicKey { compressed: true, inner };
+            let a = guard::guard("Address::p2wpkh", 0, || Address::p2wpkh(&pk, lib_blinder, params))?;
+            ("p2wpkh", a, RefPayload::Wit { version: 0, program: ra::hash160(&inner.serialize()).to_vec() })
+        }
+        3 => {
+            let pk = elements::bitcoin::PublicKey { compressed: true, inner };
+            let a = guard::guard("Address::p2shwpkh", 0, || Address::p2shwpkh(&pk, lib_blinder, params))?;
+            let mut redeem = vec![0x00, 0x14];
+            redeem.extend_from_slice(&ra::hash160(&inner.serialize()));
+            ("p2shwpkh", a, RefPayload::Sh(ra::hash160(&redeem)))
+        }
+        4 => {
+            let a = guard::guard("Address::p2wsh", sb.len(), || Address::p2wsh(&script, lib_blinder, params))?;
+            ("p2wsh", a, RefPayload::Wit { version: 0, program: sha256(&sb).to_vec() })
+        }
+        5 => {
+            let a = guard::guard("Address::p2shwsh", sb.len(), || Address::p2shwsh(&script, lib_blinder, params))?;
+            let mut redeem = vec![0x00, 0x20];
+            redeem.extend_from_slice(&sha256(&sb));
+            ("p2shwsh", a, RefPayload::Sh(ra::hash160(&redeem)))
+        }
+        6 => {
+            // Q = P + H_TapTweak/elements(P || root) G, program = x(Q)
+            let (internal, _) = inner.x_only_public_key();
+            let root: Option<[u8; 32]> = if t.bool() { Some(t.arr32()) } else { None };
+            let mut msg = internal.serialize().to_vec();
+            if let Some(r) = &root {
+                msg.extend_from_slice(r);
+            }
+            let tweak = tagged("TapTweak/elements", &msg);
+            let Ok(scalar) = Scalar::from_be_bytes(tweak) else {
+                ctx.exclude();
+                return Ok(());
+            };
+            let Ok((q, _)) = internal.add_tweak(secp(), &scalar) else {
+                ctx.exclude();
+                return Ok(());
+            };
+            let lib_root = root.map(TapNodeHash::from_byte_array);
+            let a = guard::guard("Address::p2tr", 0, || Address::p2tr(secp(), internal, lib_root, lib_blinder, params))?;
+            (if root.is_some() { "p2tr-with-root" } else { "p2tr-key-only" }, a, RefPayload::Wit { version: 1, program: q.serialize().to_vec() })
+        }
+        _ => {
+            let (x, _): (XOnlyPublicKey, _) = inner.x_only_public_key();
+            let a = guard::guard("Address::p2tr_tweaked", 0, || {
+                Address::p2tr_tweaked(TweakedPublicKey::new(x), lib_blinder, params)
+            })?;
+            ("p2tr_tweaked", a, RefPayload::Wit { version: 1, program: x.serialize().to_vec() })
+        }
+    };
+    ctx.eval();
+    let want = RefAddr { net, payload, blinder };
+    let got = from_lib(&lib)?;
+    ensure!(got == want, "Address::{} built {} instead of {}", name, describe(&got), describe(&want));
+    ctx.class(&format!("constructor:{}", name));
+    if ctx.wants_sample(name) {
+        ctx.sample(name, || json!({"constructor": name, "address": describe(&want), "text": want.encode()}));
+    }
+    check_valid(&want, &lib, ctx)
+}
+
+// ------------------------------------------------------------------ near-valid strings
+
+/// What the construction promises about a string
+enum Claim {
+    /// valid text form of this address
+    Valid(RefAddr),
+    /// not an address of any network, by construction
+    Invalid,
+    /// invalid except for a checksum coincidence: the reference parser decides
+    Undecided,
+}
+
+const FOREIGN_HRPS: [&str; 14] = ["bc", "tb", "bcrt", "e", "l", "xe", "ql", "le", "ext", "exx", "tl", "tlqq", "elq", "lqe"];
+
+fn is_known_byte(b: u8) -> bool {
+    NETS.iter().any(|n| b == n.p2pkh || b == n.p2sh || b == n.blinded)
+}
+
+fn maybe_upper(t: &mut Tape, s: String) -> String {
+    if t.chance(64) {
+        s.to_ascii_uppercase()
+    } else {
+        s
+    }
+}
+
+fn valid_key33(t: &mut Tape) -> Vec<u8> {
+    gen_blinder(t).unwrap_or_else(|| pool().pubkeys[3].serialize().to_vec())
+}
+
+/// 33 bytes that are not the encoding of a curve point
+fn invalid_key33(t: &mut Tape) -> Vec<u8> {
+    let mut k = vec![0u8; 33];
+    k[0] = t.choose(&[2u8, 3, 0, 1, 4, 5, 6, 7, 0xff, 0x82]);
+    let x = match t.below(4) {
+        0 => [0xffu8; 32], // x >= p
+        1 => [0u8; 32],    // x = 0 is not on the curve
+        _ => t.arr32(),
+    };
+    k[1..].copy_from_slice(&x);
+    if PublicKey::from_slice(&k).is_ok() {
+        k[0] = 4; // a 33-byte string starting with 04 is never a key
+    }
+    k
+}
+
+/// raw segwit-style string: hrp, version, bytes, checksum family and constant chosen freely
+fn raw_segwit(hrp: &str, version: u8, bytes: &[u8], long_checksum: bool, modern: bool) -> String {
+    let d = ra::segwit_data5(version, bytes);
+    if long_checksum {
+        ra::blech32_encode_raw(hrp, &d, if modern { ra::BLECH32M_CONST } else { ra::BLECH32_CONST })
+    } else {
+        ra::bech32_encode_raw(hrp, &d, if modern { ra::BECH32M_CONST } else { ra::BECH32_CONST })
+    }
+}
+
+fn near_valid(t: &mut Tape, ctx: &mut Ctx) -> R {
+    let net = t.below(3);
+    let n = &NETS[net];
+    let blinded = t.bool();
+    let key = valid_key33(t);
+    // bytes that go into a segwit string for `program`
+    let body = |program: &[u8]| -> Vec<u8> {
+        if blinded {
+            let mut b = key.clone();
+            b.extend_from_slice(program);
+            b
+        } else {
+            program.to_vec()
+        }
+    };
+    let hrp = if blinded { n.blech_hrp } else { n.bech_hrp };
+    let bl_tag = if blinded { "blinded" } else { "unblinded" };
+    let (class, s, claim): (String, String, Claim) = match t.below(17) {
+        0 => {
+            // a valid address built by the reference encoders alone (any network: for each
+            // network the two others' strings are "the other network's prefix")
+            let a = gen_ref_addr(t);
+            let s = a.encode();
+            let s = if a.is_segwit() { maybe_upper(t, s) } else { s };
+            ("valid-reference-built".into(), s, Claim::Valid(a))
+        }
+        1 => {
+            // human-readable part of no network, checksum correct for it
+            let mut h = t.choose(&FOREIGN_HRPS).to_string();
+            if t.bool() {
+                // one character of a real hrp replaced
+                let real = t.choose(&[n.bech_hrp, n.blech_hrp]);
+                let mut b = real.as_bytes().to_vec();
+                let i = t.below(b.len());
+                b[i] = t.choose(b"acdefghjklmnpqrstuvwxyz023456789");
+                h = String::from_utf8_lossy(&b).to_string();
+            }
+            if NETS.iter().any(|m| m.bech_hrp == h || m.blech_hrp == h) {
+                h.push('z');
+            }
+            let version = t.below(17) as u8;
+            let len = if version == 0 { t.choose(&[20usize, 32]) } else { gen_v1plus_len(t) };
+            let prog = gen_program(t, len);
+            let s = raw_segwit(&h, version, &body(&prog), blinded, version != 0);
+            (format!("foreign-hrp:{}", bl_tag), maybe_upper(t, s), Claim::Undecided)
+        }
+        2 => {
+            // wrong checksum variant for the version
+            let version = if t.bool() { 0 } else { t.range(1, 16) as u8 };
+            let len = if version == 0 { t.choose(&[20usize, 32]) } else { gen_v1plus_len(t) };
+            let prog = gen_program(t, len);
+            let s = raw_segwit(hrp, version, &body(&prog), blinded, version == 0);
+            (format!("wrong-checksum-variant:{}:{}", if version == 0 { "v0" } else { "v1+" }, bl_tag), maybe_upper(t, s), Claim::Invalid)
+        }
+        3 => {
+            // program too short (version >= 1)
+            let version = t.range(1, 16) as u8;
+            let len = t.below(2);
+            let prog = gen_program(t, len);
+            let s = raw_segwit(hrp, version, &body(&prog), blinded, true);
+            (format!("program-{}-bytes:{}", len, bl_tag), maybe_upper(t, s), Claim::Invalid)
+        }
+        4 => {
+            // program too long (version >= 1)
+            let version = t.range(1, 16) as u8;
+            let len = match t.below(4) {
+                0 => 41,
+                1 => 42,
+                2 => t.range(43, 50),
+                _ => t.range(51, 75),
+            };
+            let prog = gen_program(t, len);
+            let s = raw_segwit(hrp, version, &body(&prog), blinded, true);
+            (format!("program-{}-bytes:{}", if len <= 42 { len.to_string() } else { "43+".into() }, bl_tag), maybe_upper(t, s), Claim::Invalid)
+        }
+        5 => {
+            // version 0 with a length other than 20 / 32
+            let mut len = match t.below(8) {
+                0 => 0,
+                1 => 1,
+                2 => 2,
+                3 => 19,
+                4 => 21,
+                5 => 31,
+                6 => 33,
+                _ => t.range(0, 42),
+            };
+            if len == 20 || len == 32 {
+                len += 1;
+            }
+            let prog = gen_program(t, len);
+            let s = raw_segwit(hrp, 0, &body(&prog), blinded, false);
+            (format!("v0-bad-length:{}", bl_tag), maybe_upper(t, s), Claim::Invalid)
+        }
+        6 => {
+            // witness version 17..=31, either checksum variant
+            let version = t.range(17, 31) as u8;
+            let len = gen_v1plus_len(t);
+            let prog = gen_program(t, len);
+            let s = raw_segwit(hrp, version, &body(&prog), blinded, t.bool());
+            (format!("version-17..31:{}", bl_tag), maybe_upper(t, s), Claim::Invalid)
+        }
+        7 => {
+            // non-zero padding bits, or a whole surplus group when there is no padding
+            let version = if t.bool() { 0 } else { t.range(1, 16) as u8 };
+            let len = if version == 0 { t.choose(&[20usize, 32]) } else { gen_v1plus_len(t) };
+            let bytes = body(&gen_program(t, len));
+            let mut d = ra::segwit_data5(version, &bytes);
+            let pad = ra::pad_bits(bytes.len());
+            let kind = if pad > 0 {
+                let bits = 1 + t.below((1usize << pad) - 1) as u8;
+                if let Some(l) = d.last_mut() {
+                    *l |= bits;
+                }
+                "nonzero-padding"
+            } else {
+                d.push(t.below(32) as u8);
+                "surplus-group"
+            };
+            let s = if blinded {
+                ra::blech32_encode_raw(hrp, &d, if version == 0 { ra::BLECH32_CONST } else { ra::BLECH32M_CONST })
+            } else {
+                ra::bech32_encode_raw(hrp, &d, if version == 0 { ra::BECH32_CONST } else { ra::BECH32M_CONST })
+            };
+            (format!("{}:{}", kind, bl_tag), maybe_upper(t, s), Claim::Invalid)
+        }
+        8 => {
+            // mixed case
+            let a = gen_ref_segwit(t);
+            let s = a.encode();
+            let mut b = s.clone().into_bytes();
+            let letters: Vec<usize> = (0..b.len()).filter(|&i| b[i].is_ascii_alphabetic()).collect();
+            let sep = s.rfind('1').unwrap_or(0);
+            match t.below(4) {
+                0 => {
+                    let i = letters[t.below(letters.len())];
+                    b[i] = b[i].to_ascii_uppercase();
+                }
+                1 => {
+                    b.make_ascii_uppercase();
+                    let i = letters[t.below(letters.len())];
+                    b[i] = b[i].to_ascii_lowercase();
+                }
+                2 => b[..sep].make_ascii_uppercase(),
+                _ => b[sep..].make_ascii_uppercase(),
+            }
+            let m = String::from_utf8_lossy(&b).to_string();
+            let mixed = m.bytes().any(|c| c.is_ascii_uppercase()) && m.bytes().any(|c| c.is_ascii_lowercase());
+            ("mixed-case".into(), m, if mixed { Claim::Invalid } else { Claim::Undecided })
+        }
+        9 => {
+            // blinded segwit address whose key bytes are not a curve point
+            let bad = invalid_key33(t);
+            let version = if t.bool() { 0 } else { t.range(1, 16) as u8 };
+            let len = if version == 0 { t.choose(&[20usize, 32]) } else { gen_v1plus_len(t) };
+            let mut bytes = bad;
+            bytes.extend_from_slice(&gen_program(t, len));
+            let s = raw_segwit(n.blech_hrp, version, &bytes, true, version != 0);
+            ("invalid-blinding-key:segwit".into(), maybe_upper(t, s), Claim::Invalid)
+        }
+        10 => {
+            let bad = invalid_key33(t);
+            let pre = if t.bool() { n.p2pkh } else { n.p2sh };
+            let s = ra::blinded_base58_addr(n.blinded, pre, &bad, &gen_hash20(t));
+            ("invalid-blinding-key:base58".into(), s, Claim::Invalid)
+        }
+        11 => {
+            // base58 payload one byte short / long (hash or key), checksum correct
+            let pre = if t.bool() { n.p2pkh } else { n.p2sh };
+            let hl = t.choose(&[19usize, 21, 20]);
+            let hash = t.bytes(hl);
+            let s = if blinded {
+                let mut k = key.clone();
+                if hl == 20 {
+                    if t.bool() {
+                        k.pop();
+                    } else {
+                        k.push(t.u8());
+                    }
+                }
+                ra::blinded_base58_addr(n.blinded, pre, &k, &hash)
+            } else {
+                let alt = if t.bool() { 19 } else { 21 };
+                let hash = if hl == 20 { t.bytes(alt) } else { hash };
+                ra::base58_addr(pre, &hash)
+            };
+            (format!("base58-length:{}", bl_tag), s, Claim::Invalid)
+        }
+        12 => {
+            // prefix bytes that belong together on no network
+            let other = &NETS[(net + 1 + t.below(2)) % 3];
+            let hash = gen_hash20(t);
+            let mut unknown = t.u8();
+            if is_known_byte(unknown) {
+                unknown = 0; // 0 is no Elements prefix
+            }
+            let (k, s) = match t.below(5) {
+                0 => ("unknown-version", ra::base58_addr(unknown, &hash)),
+                1 => (
+                    "blinded-prefix-of-a-other-version-of-b",
+                    ra::blinded_base58_addr(n.blinded, if t.bool() { other.p2pkh } else { other.p2sh }, &key, &hash),
+                ),
+                2 => ("unknown-blinded-prefix", ra::blinded_base58_addr(unknown, if t.bool() { n.p2pkh } else { n.p2sh }, &key, &hash)),
+                3 => ("blinded-unknown-version", ra::blinded_base58_addr(n.blinded, unknown, &key, &hash)),
+                _ => ("blinded-prefix-on-20-bytes", ra::base58_addr(n.blinded, &hash)),
+            };
+            (format!("base58-prefix:{}", k), s, Claim::Invalid)
+        }
+        13 => {
+            // correct payload, wrong base58 checksum
+            let mut a = gen_ref_addr(t);
+            if a.is_segwit() {
+                a.payload = RefPayload::Pkh(gen_hash20(t));
+            }
+            let m = &NETS[a.net];
+            let pre = if matches!(a.payload, RefPayload::Pkh(_)) { m.p2pkh } else { m.p2sh };
+            let h = match &a.payload {
+                RefPayload::Pkh(h) | RefPayload::Sh(h) => h.to_vec(),
+                RefPayload::Wit { .. } => vec![],
+            };
+            let mut p = match &a.blinder {
+                Some(b) => {
+                    let mut p = vec![m.blinded, pre];
+                    p.extend_from_slice(b);
+                    p
+                }
+                None => vec![pre],
+            };
+            p.extend_from_slice(&h);
+            ("base58-checksum".into(), ra::base58check_bad(&p, t.u8()), Claim::Invalid)
+        }
+        14 => {
+            // checksum family that does not belong to the human-readable part
+            let version = if t.bool() { 0 } else { t.range(1, 16) as u8 };
+            let len = if version == 0 { t.choose(&[20usize, 32]) } else { gen_v1plus_len(t) };
+            let prog = gen_program(t, len);
+            let with_key = t.bool();
+            let bytes = if with_key {
+                let mut b = key.clone();
+                b.extend_from_slice(&prog);
+                b
+            } else {
+                prog
+            };
+            // `blinded` here selects the hrp; the checksum family is the opposite one
+            let s = raw_segwit(hrp, version, &bytes, !blinded, version != 0);
+            (format!("hrp-{}-with-{}-checksum", bl_tag, if blinded { "6-char" } else { "12-char" }), maybe_upper(t, s), Claim::Undecided)
+        }
+        15 => {
+            // blinded form with fewer than 33 bytes of data
+            let version = if t.bool() { 0 } else { t.range(1, 16) as u8 };
+            let k = match t.below(6) {
+                0 => 0,
+                1 => 1,
+                2 => 2,
+                3 => 20,
+                4 => 32,
+                _ => t.below(33),
+            };
+            let s = raw_segwit(n.blech_hrp, version, &key[..k], true, version != 0);
+            ("blinded-data-shorter-than-key".into(), maybe_upper(t, s), Claim::Invalid)
+        }
+        _ => {
+            // a valid address of another network re-labelled with this network's prefix but the
+            // other network's checksum (hrp swapped after the checksum was computed)
+            let other = &NETS[(net + 1 + t.below(2)) % 3];
+            let version = if t.bool() { 0 } else { t.range(1, 16) as u8 };
+            let len = if version == 0 { t.choose(&[20usize, 32]) } else { gen_v1plus_len(t) };
+            let prog = gen_program(t, len);
+            let good = raw_segwit(if blinded { other.blech_hrp } else { other.bech_hrp }, version, &body(&prog), blinded, version != 0);
+            let tail = ra::split_hrp(&good).map(|(_, d)| d.to_string()).unwrap_or_default();
+            let s = format!("{}1{}", hrp, tail);
+            (format!("checksum-of-other-network:{}", bl_tag), maybe_upper(t, s), Claim::Undecided)
+        }
+    };
+
+    // the reference parser is the second opinion on every constructed string
+    let refv = ra::ref_parse(&s);
+    match (&claim, &refv) {
+        (Claim::Valid(a), Some(r)) if a == r => {}
+        (Claim::Valid(a), _) => return Err(harness_bug(format!("{}: reference parser does not read {:?} as {}", class, s, describe(a)))),
+        (Claim::Invalid, Some(r)) => return Err(harness_bug(format!("{}: {:?} is a valid address ({})", class, s, describe(r)))),
+        (Claim::Invalid, None) => {}
+        (Claim::Undecided, Some(_)) => {
+            // checksum coincidence: the string is a real address; it is then treated as one
+            ctx.exclude();
+        }
+        (Claim::Undecided, None) => {}
+    }
+    ctx.class(&format!("near:{}", class));
+    if ctx.wants_sample(&class) {
+        ctx.sample(&class, || json!({"class": class, "string": s, "valid": refv.is_some()}));
+    }
+
+    match &refv {
+        Some(want) => {
+            let canonical = if want.is_segwit() { s.to_ascii_lowercase() } else { s.clone() };
+            check_parses_as(&s, want, &canonical, ctx)?;
+            ctx.nontrivial(&("valid", &s));
+        }
+        None => {
+            let mut results = vec![("from_str".to_string(), lib_from_str(&s)?)];
+            for i in 0..3 {
+                results.push((format!("parse_with_params({})", NETS[i].name), lib_parse_with(&s, i)?));
+            }
+            ctx.evals_n(4);
+            let accepted = results.iter().skip(1).filter(|(_, r)| r.is_ok()).count();
+            ensure!(accepted <= 1, "{:?} parses under {} networks' parameters", s, accepted);
+            for (how, r) in &results {
+                if let Ok(a) = r {
+                    let got = from_lib(a)?;
+                    let short_blinded = got.blinder.is_some()
+                        && matches!(&got.payload, RefPayload::Wit { version, program } if *version >= 1 && program.len() < 2);
+                    if short_blinded {
+                        if ctx.is_known(KF_BLINDED_SHORT) {
+                            ctx.class("known:blinded-short-program");
+                            continue;
+                        }
+                        return Err(Failure::new(format!(
+                            "{} accepts {:?} [{}], a blinded address with a witness program of {} byte(s): {} (programs must have 2..40 bytes)",
+                            how,
+                            s,
+                            class,
+                            match &got.payload {
+                                RefPayload::Wit { program, .. } => program.len(),
+                                _ => 0,
+                            },
+                            describe(&got)
+                        )));
+                    }
+                    check_invariant(&s, &got)?;
+                    return Err(Failure::new(format!(
+                        "{} accepts {:?} [{}] as {}; the string is not a valid address of any network",
+                        how,
+                        s,
+                        class,
+                        describe(&got)
+                    )));
+                }
+            }
+            ctx.nontrivial(&("invalid", &s));
+        }
+    }
+    Ok(())
+}
+
+fn kf_repro() -> bool {
+    // blech32m, version 1, the fixed test key followed by an empty program
+    let key = unhex("0212bf0ea45b733dfde8ecb5e896306c4165c666c99fc5d1ab887f71393a975cea").unwrap_or_default();
+    let s = ra::blech32_encode_raw("lq", &ra::segwit_data5(1, &key), ra::BLECH32M_CONST);
+    Address::from_str(&s).is_ok()
+}
 
 pub fn property() -> Property {
-    Property { id: "C06", rule: "", assumptions: &[], subs: vec![], known: vec![] }
+    Property {
+        id: "C06",
+        rule: "roundtrip: addresses filled through the public fields: {p2pkh, p2sh, v0/20, v0/32, v1/32, v1..16 with lengths \
+               2..40 biased to 2,3,20,32,33,39,40} x hashes/programs (zero, ff, random) x blinder (none / pool key / key from a \
+               tape scalar / key from a tape x coordinate) x 3 networks. Oracle: display == string of the harness's own \
+               base58check / bech32(m) / blech32(m) encoders (pinned to 32 fixed repository addresses at start-up); from_str \
+               of the lower- and (segwit) upper-case string gives the same fields; parse_with_params accepts under exactly \
+               the own network; display of the parsed value is the lower-case string; script_pubkey bytes. constructors: \
+               p2pkh (both key forms), p2sh, p2wpkh, p2shwpkh, p2wsh, p2shwsh, p2tr (with / without root), p2tr_tweaked \
+               against own RIPEMD-160 / SHA-256 / tagged-hash + libsecp tweak-add, then the same round trip. near_valid: 17 \
+               classes of strings built only with the reference encoders (see histogram `near:*`); a reference parser \
+               gives the verdict (must agree with the construction, else harness error); library must reject every invalid \
+               one under from_str and all three parameter sets, accept valid ones under exactly one; every accepted string \
+               is checked for the payload invariant and the checksum variant. Non-trivial: blinded or version >= 1 valid \
+               addresses (distinct by content) and every near-valid string (distinct by string).",
+        assumptions: &[
+            "libsecp256k1's key parser is the validity predicate for blinding keys",
+            "reference encoders are pinned to the fixed addresses of the repository's unit tests and BIP-173/350 vectors at start-up",
+        ],
+        subs: vec![
+            Sub { name: "roundtrip", kind: Kind::Tape { max_len: 160, quick: 100_000, thorough: 3_000_000, f: roundtrip } },
+            Sub { name: "constructors", kind: Kind::Tape { max_len: 400, quick: 20_000, thorough: 600_000, f: constructors } },
+            Sub { name: "near_valid", kind: Kind::Tape { max_len: 240, quick: 200_000, thorough: 6_000_000, f: near_valid } },
+        ],
+        known: vec![Known {
+            key: KF_BLINDED_SHORT,
+            what: "a blech32m string holding a valid blinding key followed by a 0- or 1-byte witness program (version >= 1) parses as an address",
+            repro: kf_repro,
+        }],
+    }
 }
